@@ -1,11 +1,12 @@
 #!/bin/bash
 # usage: ./check.sh <property id> <quick|thorough>
 # exit 0: property held on everything explored; 1: VIOLATION line(s); 2: the check could not do its job
+# Rebuilds the harness against /repo's current working tree (replace directive) with -tags verif on every call.
 set -u
 cd "$(dirname "$0")"
 VERIF=$(pwd)
 ID=${1:?property id}; TIER=${2:-${VERIF_TIER:-quick}}
-export GOFLAGS=-mod=mod GOPROXY=off GOSUMDB=off GOTOOLCHAIN=local CGO_ENABLED=0
+export GOFLAGS=-mod=mod GOPROXY=off GOSUMDB=off GOTOOLCHAIN=local
 export VERIF_DIR=$VERIF VERIF_REPO=${VERIF_REPO:-/repo}
 GO=go1.26.8
 mkdir -p bin evidence replays
@@ -14,15 +15,45 @@ MODFILE=""
 if [ "$VERIF_REPO" != /repo ]; then
   sed "s#=> /repo#=> $VERIF_REPO#" sim/go.mod > bin/alt-$$.mod; cp sim/go.sum bin/alt-$$.sum; MODFILE="-modfile=$VERIF/bin/alt-$$.mod"
 fi
-BIN=$VERIF/bin/sim-$ID-$$.test
-RACE=""
-case "$ID" in C14R) RACE="-race"; export CGO_ENABLED=1;; esac
-if ! (cd sim && $GO test $MODFILE -tags verif $RACE -c -o "$BIN" . ) > bin/build-$ID-$$.log 2>&1; then
-  echo "BUILD FAILED (exit 2); compiler output:"; cat bin/build-$ID-$$.log; rm -f bin/build-$ID-$$.log bin/alt-$$.mod bin/alt-$$.sum
-  exit 2
+trap 'rm -f bin/alt-$$.mod bin/alt-$$.sum' EXIT
+
+# run_prop <prop id> <race flag or ""> : builds and runs one master; returns its exit code
+run_prop() {
+  local P=$1 RACE=$2 BIN=$VERIF/bin/sim-$1-$$.test
+  if [ -n "$RACE" ]; then export CGO_ENABLED=1; else export CGO_ENABLED=0; fi
+  if ! (cd sim && $GO test $MODFILE -tags verif $RACE -c -o "$BIN" . ) > bin/build-$P-$$.log 2>&1; then
+    echo "BUILD FAILED (exit 2); compiler output:"; cat bin/build-$P-$$.log; rm -f bin/build-$P-$$.log
+    return 2
+  fi
+  rm -f bin/build-$P-$$.log
+  SIM_ROLE=master SIM_PROP=$P SIM_TIER=$TIER SIM_SEED=${VERIF_SEED:-1} "$BIN"
+  local rc=$?
+  rm -f "$BIN"
+  return $rc
+}
+
+if [ "$ID" != C14 ]; then
+  run_prop "$ID" ""
+  exit $?
 fi
-rm -f bin/build-$ID-$$.log bin/alt-$$.mod bin/alt-$$.sum
-SIM_ROLE=master SIM_PROP=$ID SIM_TIER=$TIER SIM_SEED=${VERIF_SEED:-1} "$BIN"
-rc=$?
-rm -f "$BIN"
-exit $rc
+
+# C14 = part A (deterministic isolation histories) + part B (real threads under the race detector)
+rm -f evidence/C14R.json
+run_prop C14 ""; rcA=$?
+SIM_REPORT_AS=C14 GORACE="halt_on_error=1 exitcode=66" SIM_WORKERS=${SIM_WORKERS_RACE:-4} SIM_GOMAXPROCS=8 run_prop C14R -race; rcB=$?
+if [ -z "${SIM_NO_EVIDENCE:-}" ] && [ -f evidence/C14.json ] && [ -f evidence/C14R.json ]; then
+  python3 - <<'PY'
+import json
+a=json.load(open('evidence/C14.json')); b=json.load(open('evidence/C14R.json'))
+a['coverage']['part_b_race']=b['coverage']
+a['coverage']['part_b_race']['wall_s']=b['wall_s']
+a['coverage']['part_b_race']['violations']=b.get('violations',0)
+a['violations']=a.get('violations',0)+b.get('violations',0)
+a['wall_s']=a['wall_s']+b['wall_s']
+json.dump(a,open('evidence/C14.json','w'),indent=1)
+PY
+fi
+rm -f evidence/C14R.json
+if [ $rcA -eq 1 ] || [ $rcB -eq 1 ]; then exit 1; fi
+if [ $rcA -ne 0 ] || [ $rcB -ne 0 ]; then exit 2; fi
+exit 0
